@@ -153,12 +153,12 @@ PLANS = {
     'C15': dict(
         module='RucteProps.C15',
         extra_modules=['RucteProps.C15Directives', 'RucteProps.C15Calls', 'RucteProps.C15Tree'],
-        theorems=['Ructe.C15.spacelike_complete', 'Ructe.C15.layout_irrelevant_at_slot', 'Ructe.C15.comment_complete', 'Ructe.C15.multispace0_complete', 'Ructe.C15.spacelike_total', 'Ructe.C15.pinned_comment_counterexample', 'Ructe.C15.if_layout_irrelevant', 'Ructe.C15.if_else_layout_irrelevant', 'Ructe.C15.for_layout_irrelevant', 'Ructe.C15.if_name_layout_irrelevant', 'Ructe.C15.match_layout_irrelevant', 'Ructe.C15.call_layout_irrelevant', 'Ructe.C15Tree.nodes_complete', 'Ructe.C15Tree.block_complete', 'Ructe.C15Tree.body_complete', 'Ructe.C15Tree.node_complete', 'Ructe.C15Tree.layout_irrelevant_tree', 'Ructe.C15Tree.layout_irrelevant_block', 'Ructe.C15Tree.no_swallow_after_block'],
+        theorems=['Ructe.C15.spacelike_complete', 'Ructe.C15.layout_irrelevant_at_slot', 'Ructe.C15.comment_complete', 'Ructe.C15.multispace0_complete', 'Ructe.C15.spacelike_total', 'Ructe.C15.pinned_comment_counterexample', 'Ructe.C15.if_layout_irrelevant', 'Ructe.C15.if_else_layout_irrelevant', 'Ructe.C15.for_layout_irrelevant', 'Ructe.C15.if_name_layout_irrelevant', 'Ructe.C15.match_layout_irrelevant', 'Ructe.C15.call_layout_irrelevant', 'Ructe.C15Tree.nodes_complete', 'Ructe.C15Tree.block_complete', 'Ructe.C15Tree.body_complete', 'Ructe.C15Tree.node_complete', 'Ructe.C15Tree.layout_irrelevant_tree', 'Ructe.C15Tree.layout_irrelevant_block', 'Ructe.C15Tree.no_swallow_after_block', 'Ructe.C15Tree.cond_inner_layout', 'Ructe.C15Tree.if_inner_layout', 'Ructe.C15Tree.for_pattern_complete', 'Ructe.C15Tree.loop_expression_complete', 'Ructe.C15Tree.cond_expression_complete', 'Ructe.C15Tree.dispatch_exact'],
         runs=[dict(suite='parse', mix='structured', n=dict(quick=5000, thorough=50000), projection='text', tags=['C15'])],
         correspondence='generated code, byte for byte, of canonical and perturbed prints of the same source tree vs the model\'s single answer',
         rule='every structured template printed canonically and twice with random admissible layouts (white space, LF, CRLF, tabs, 8 comment shapes incl. `**@` endings) at every slot kind; non-trivial = distinct accepted syntax trees',
         assumptions=[],
-        level_text='Proved: at every layout slot of the grammar any admissible layout is consumed completely and is indistinguishable from any other (spacelike_complete, layout_irrelevant_at_slot, comment_complete, multispace0_complete, spacelike_total, spacelike_sound). Compositional completeness lemmas for the directives are proved (if_layout_irrelevant, if_else_layout_irrelevant, for_layout_irrelevant, if_name_layout_irrelevant, match_layout_irrelevant, call_layout_irrelevant): any admissible layout at the slots of the directive yields the same node. The induction over a whole source tree IS proved (RucteProps/C15Tree.lean over RucteProofs/SrcTree*.lean): for every source tree of the documented body syntax (text, @@ @{ @}, comments, @name, @name(group), @(group), @if with else / else-if chains, @for, @match, @:call with Rust and block arguments, nested to any depth, with a layout slot at every place the syntax allows insignificant material) that meets the explicit well-formedness predicate WF, the parser returns exactly the intended tree (nodes_complete, block_complete, body_complete, node_complete, fuel bound explicit), hence two trees that differ only in their layout slots parse to the same tree and give byte-identical code (layout_irrelevant_tree, layout_irrelevant_block), and nothing after a closing brace is swallowed (no_swallow_after_block). Fragments inside directives are plain names in this theorem (general fragments: C05.expression_complete); the template header is not part of it. Those parts are covered by the metamorphic oracle (canonical vs perturbed prints give byte-identical code and the documented tree) + tie on the full text.',
+        level_text='Proved: at every layout slot of the grammar any admissible layout is consumed completely and is indistinguishable from any other (spacelike_complete, layout_irrelevant_at_slot, comment_complete, multispace0_complete, spacelike_total, spacelike_sound). Compositional completeness lemmas for the directives are proved (if_layout_irrelevant, if_else_layout_irrelevant, for_layout_irrelevant, if_name_layout_irrelevant, match_layout_irrelevant, call_layout_irrelevant): any admissible layout at the slots of the directive yields the same node. The induction over a whole source tree IS proved (RucteProps/C15Tree.lean over RucteProofs/SrcTree*.lean): for every source tree of the documented body syntax (text, @@ @{ @}, comments, @name, @name(group), @(group), @if with else / else-if chains, @for, @match, @:call with Rust and block arguments, nested to any depth, with a layout slot at every place the syntax allows insignificant material) that meets the explicit well-formedness predicate WF, the parser returns exactly the intended tree (nodes_complete, block_complete, body_complete, node_complete, fuel bound explicit), hence two trees that differ only in their layout slots parse to the same tree and give byte-identical code (layout_irrelevant_tree, layout_irrelevant_block), and nothing after a closing brace is swallowed (no_swallow_after_block). Every Rust fragment in the tree is a documented expression (C05.DExpr): @expr nodes, call arguments, match scrutinee and arm patterns, @for patterns (name with optional {..}, or optional & + tuple, stored normalised) and iterables (expression with optional .. / ..= range), @if conditions (let bindings, stored normalised; logic expressions with !, the eight relational operators and inner layout, stored verbatim). Layout inside a logic condition is part of the stored fragment, so it is not erased by sameShape; cond_inner_layout / if_inner_layout state that two conditions differing only there are stored as the same token list woven with their own gaps (behavioural equality is then up to rustc, validated by e2e). dispatch_exact: which text after @ reaches the expression arm. The template header is not part of this theorem. The rest is covered by the metamorphic oracle (canonical vs perturbed prints give byte-identical code and the documented tree) + tie on the full text.',
         level_note='Trusted: Lean kernel; hand-written model; generator\'s notion of admissible layout.',
         design_ref='DESIGN.md §6 C15',
     ),
@@ -294,7 +294,7 @@ PLANS = {
         correspondence='bytes written by the rustc-compiled generated functions vs Ructe.renderL (specification semantics under the mini-Rust Sem) of the model\'s parse; syntax tree and body code of structured templates vs the model',
         rule='typed template programs: 1..5 templates per program in up to 3 module levels, acyclic calls with 0..3 Content blocks (empty / comment-only / nested directives and calls), if / else-if chains / if-let / for over slices, tuples (& patterns), struct destructuring, ranges, enumerate / match with 2..3 arms, every relational operator, negation, &&, ||; 3 argument sets per program; every rendering re-run under fault sinks (failure at every byte offset for renderings up to 48 bytes, sampled beyond; chunk sizes 1 / 3 / 7 / unlimited; Interrupted every 2nd / 5th call); non-trivial = distinct renderings + distinct accepted syntax trees',
         assumptions=['user fragments are pure and infallible', 'the mini-Rust evaluator (RucteModel/MiniRust.lean) agrees with rustc on the generated fragment language (validated by this run)'],
-        level_text='Proved for every Sem (meaning of user fragments), program, fuel, environment and sink: exec_realises (the emitted statements realise the specification rendering), render_if_taken / render_if_not_taken / render_else_block / render_else_if / else_if_flattening / render_for / render_iter_cons / render_match / render_seq / render_fuel_mono. The parser side (which source becomes which tree): for every well-formed source tree of the documented body syntax the parser returns the intended tree with block bodies in full, and after the closing brace of a block the following nodes are parsed as themselves unless an else really follows (C15Tree.block_complete, C15Tree.no_swallow_after_block; directive fragments are plain names there, general fragments by C05.expression_complete); beyond that it is validated by the documented-tree oracle. Tie: rustc-compiled code vs the Lean rendering on generated typed programs.',
+        level_text='Proved for every Sem (meaning of user fragments), program, fuel, environment and sink: exec_realises (the emitted statements realise the specification rendering), render_if_taken / render_if_not_taken / render_else_block / render_else_if / else_if_flattening / render_for / render_iter_cons / render_match / render_seq / render_fuel_mono. The parser side (which source becomes which tree): for every well-formed source tree of the documented body syntax the parser returns the intended tree with block bodies in full, and after the closing brace of a block the following nodes are parsed as themselves unless an else really follows (C15Tree.block_complete, C15Tree.no_swallow_after_block; fragments are documented expressions, C05.expression_complete); beyond that it is validated by the documented-tree oracle. Tie: rustc-compiled code vs the Lean rendering on generated typed programs.',
         level_note='Trusted: Lean kernel; hand-written model; print : IR -> text is validated by rustc runs, not proved; rustc.',
         design_ref='DESIGN.md §6 C03',
     ),
